@@ -174,6 +174,11 @@ impl Expr {
         let names = ["a", "b", "c", "d"];
         match kind.as_str() {
           "tuple" => format!("({})", els.iter().map(|e| e.render()).collect::<Vec<_>>().join(", ")),
+          // the first two elements form an inner tuple: `((x, 1), 2)`
+          "nested-tuple" => format!("(({}, {}){})", els[0].render(), els.get(1).map(|e| e.render()).unwrap_or("0".into()), els.iter().skip(2).map(|e| format!(", {}", e.render())).collect::<String>()),
+          "set" => format!("{{{}}}", els.iter().map(|e| e.render()).collect::<Vec<_>>().join(", ")),
+          // a match expression whose only arm hands back the matched variable
+          "match-id" => format!("{}? | * => {}.", els[0].render(), els[0].render()),
           "record" => format!("{{{}}}", els.iter().enumerate().map(|(i, e)| format!("{}: {}", names[i % 4], e.render())).collect::<Vec<_>>().join(", ")),
           "map" => format!("{{{}}}", els.iter().enumerate().map(|(i, e)| format!("\"{}\": {}", names[i % 4], e.render())).collect::<Vec<_>>().join(", ")),
           // two f64 columns, elements row by row (an odd last element is dropped by the generator)
@@ -187,7 +192,7 @@ impl Expr {
     match self {
       Expr::Lit(_) => "lit", Expr::Var(_) => "var", Expr::VarOp(..) => "var-op-lit", Expr::VarVar(..) => "var-op-var",
       Expr::VarIdx(..) => "var-idx", Expr::Field(..) => "field", Expr::TupElem(..) => "tuple-elem", Expr::LitOp(..) => "lit-op-lit", Expr::MapGet(..) => "map-get", Expr::Call(..) => "call",
-      Expr::Built(k, _) => match k.as_str() { "tuple" => "built-tuple", "record" => "built-record", "map" => "built-map", "table" => "built-table", _ => "built-mat" },
+      Expr::Built(k, _) => match k.as_str() { "tuple" => "built-tuple", "record" => "built-record", "map" => "built-map", "table" => "built-table", "nested-tuple" => "built-nested-tuple", "set" => "built-set", "match-id" => "built-match-id", _ => "built-mat" },
     }
   }
   pub fn vars(&self) -> Vec<&str> {
